@@ -22,6 +22,11 @@ func IsTimeout(err error) bool {
 	if e, ok := err.(net.Error); ok {
 		return e.Timeout()
 	}
+	// a timeout wrapped by the dial path (fmt.Errorf("...: %w", err)) is still a timeout
+	var ne net.Error
+	if errors.As(err, &ne) {
+		return ne.Timeout()
+	}
 	return false
 }
 
